@@ -9,24 +9,26 @@ without its offending parts ends in the same configuration.
 """
 import builtins
 import copy
+import errno
 import json
 import os
 
-from .. import kgen, ops, simpipe, simproc, srvgen
+from .. import kgen, ops, simfs, simpipe, simproc, srvgen
 from ..rng import digest
 from . import c14, common
 
 ID = "C15"
 LEVEL = "exploration"
 BATCH = 25
-PROBES_EXPECTED = ['probe:twin-compared', 'probe:stderr-nonempty']
+PROBES_EXPECTED = ['probe:twin-compared', 'probe:stderr-nonempty', 'err@open_r/EACCES', 'err@open_w/EACCES', 'err@write/ENOSPC']
 TIERS = {"quick": {"runs": 6000, "wall": 50}, "thorough": {"runs": 250000, "wall": 840}}
 RULE = ("each run draws a program, protocol version, knobs and a session of 1-12 lines: valid requests mixed with JSON objects whose documented "
         "keys carry arbitrary JSON (wrong types, extreme numbers, empty strings, nested containers), non-JSON lines, unknown/invisible options, "
         "unknown menu ids, unreadable/unwritable/non-UTF-8/directory files; the last line is additionally replayed on a twin server without its "
         "offending parts; non-trivial = >=1 offending line and >=1 valid state-changing request; distinct = digest of (program shape, lines, replies)")
 REAL = c14.REAL
-STUB = c14.STUB + ["unreadable/unwritable files are real paths in the sandbox (missing directory, a directory, invalid UTF-8 bytes)"]
+STUB = c14.STUB + ["unreadable/unwritable files: real paths in the sandbox (missing directory, a directory, invalid UTF-8 bytes) and OSErrors injected by SimFS "
+                   "(EACCES on open for read / for write, ENOSPC on the first write)"]
 ASSUMPTIONS = ["'offending' is decided by a fixed conservative table (unknown option/menu id; promptless option; JSON value of a kind the documentation does not list "
                "for the option's type; non-finite float; negative hex; out-of-range number only as the sole key of the request; unreadable load / unwritable save target); "
                "anything else - in particular a currently invisible option - is sent to both twins unchanged",
@@ -85,8 +87,8 @@ def generate(r, tier):
         if "raw" in d:
             continue
         for key in ("load", "save"):
-            if key in d and r.random() < 0.25:
-                d[key] = r.choice([["missing"], ["dir"], ["hand", 99]])
+            if key in d and r.random() < 0.3:
+                d[key] = r.choice([["missing"], ["dir"], ["hand", 99]] + ([["eacces-r"]] if key == "load" else [["eacces-w"], ["enospc"]]))
     sc["lines"] = lines
     sc["bad_file"] = r.random() < 0.3  # hand_99: invalid UTF-8
     return sc
@@ -118,7 +120,7 @@ def _offending(k, desc, version, sb):
             clean["load"] = spec
         elif isinstance(spec, list) and spec and spec[0] == "dir" and not os.path.isdir(os.path.join(sb, "adir")):
             return None, None  # an earlier `save` to the directory replaced it by a file: readable, not classified
-        elif isinstance(spec, list) and spec and spec[0] in ("missing", "dir"):
+        elif isinstance(spec, list) and spec and spec[0] in ("missing", "dir", "eacces-r"):
             changed = True  # unreadable: offending, dropped
         else:
             return None, None  # not classified (literal of a wrong type, invalid utf-8 ...)
@@ -210,7 +212,7 @@ def _offending(k, desc, version, sb):
         spec = desc["save"]
         if spec is None or (isinstance(spec, list) and spec and spec[0] == "slot"):
             clean["save"] = spec
-        elif isinstance(spec, list) and spec and spec[0] == "missing":
+        elif isinstance(spec, list) and spec and spec[0] in ("missing", "eacces-w", "enospc"):
             changed = True
         else:
             # a directory as save target is *not* unwritable for this code: write_config() moves it to <dir>.old and
@@ -243,7 +245,17 @@ def _run(sc, ctx, sb, lines, judge):
             ctx.events += 1
             judge(i, lines[i], line, obj, sess)
 
-    sess.run(next_line, on_reply)
+    fs = simfs.SimFS(sb, chunk=64)
+    with builtins.open(os.path.join(sb, "fault_eacces_r"), "w") as f:
+        f.write("CONFIG_X=y\n")
+    fs.fail[os.path.join(sb, "fault_eacces_r")] = ("r", errno.EACCES)
+    fs.fail[os.path.join(sb, "fault_eacces_w")] = ("w", errno.EACCES)
+    fs.fail[os.path.join(sb, "fault_enospc")] = ("write", errno.ENOSPC)
+    try:
+        with simfs.Installed(fs, [simproc.core], copyfile=False):
+            sess.run(next_line, on_reply)
+    finally:
+        ctx.counters.update({k: v for k, v in fs.counters.items() if k.startswith("err@")})
     return sess
 
 
